@@ -44,7 +44,8 @@ macro_rules! with_sim {
             "H:C14" => { let $s = &kit::Plus { a: sim_b::SimB { prop: sim_b::PropB::C14 }, b: sim_h::SimH { prop: sim_h::PropH::C14 }, every: 1, name: "H:whole-system(virtual time)" }; $body }
             "C15" => { let $s = &kit::Plus { a: sim_b::SimB { prop: sim_b::PropB::C15 }, b: sim_h::SimH { prop: sim_h::PropH::C15 }, every: 25, name: "B:engine+execution-links + H:whole-system(virtual time)" }; $body }
             "H:C15" => { let $s = &kit::Plus { a: sim_b::SimB { prop: sim_b::PropB::C15 }, b: sim_h::SimH { prop: sim_h::PropH::C15 }, every: 1, name: "H:whole-system(virtual time)" }; $body }
-            "C19" => { let $s = &sim_b::SimB { prop: sim_b::PropB::C19 }; $body }
+            "C19" => { let $s = &kit::Plus { a: sim_b::SimB { prop: sim_b::PropB::C19 }, b: sim_h::SimH { prop: sim_h::PropH::C19 }, every: 10, name: "B:engine+execution-links + H:whole-system(virtual time)" }; $body }
+            "H:C19" => { let $s = &kit::Plus { a: sim_b::SimB { prop: sim_b::PropB::C19 }, b: sim_h::SimH { prop: sim_h::PropH::C19 }, every: 1, name: "H:whole-system(virtual time)" }; $body }
             "C10" => { let $s = &kit::Plus { a: sim_f::SimF, b: sim_h::SimH { prop: sim_h::PropH::C10 }, every: 8, name: "F:audit-stream+replica + H:whole-system(virtual time)" }; $body }
             "H:C10" => { let $s = &kit::Plus { a: sim_f::SimF, b: sim_h::SimH { prop: sim_h::PropH::C10 }, every: 1, name: "H:whole-system(virtual time)" }; $body }
             "C07" => { let $s = &kit::Plus { a: sim_c::SimC7, b: sim_h::SimH { prop: sim_h::PropH::C07 }, every: 20, name: "C:execution-manager(virtual time) + H:whole-system(virtual time)" }; $body }
